@@ -41,6 +41,8 @@ func (fx *fnExec) setResult(dst *ssa.Call, v SV) {
 }
 
 func (fx *fnExec) execCall(dst *ssa.Call, c *ssa.CallCommon, where string) {
+	fx.curCall = c
+	defer func() { fx.curCall = nil }()
 	name := calleeName(c)
 	var args []SV
 	var argTypes []types.Type
@@ -263,7 +265,10 @@ func (fx *fnExec) applyContract(dst *ssa.Call, ctr *FuncContract, name string, c
 		for _, h := range ctr.Hooks {
 			for _, a := range h.Assigns {
 				if a.Kind == "assign" || a.Kind == "havoc" {
-					ms.ghosts[ghostRoot(a.LHS)] = true
+					// only package-level ghost state is shared between a callee and its callers
+					if _, shared := fx.v.cs.Ghosts[ghostRoot(a.LHS)]; shared {
+						ms.ghosts[ghostRoot(a.LHS)] = true
+					}
 				}
 			}
 		}
